@@ -26,13 +26,17 @@ META = {
                   'enumerated/sampled expressions and the running CPython (3.12).',
     'level_note': 'Trusted: CPython compile/ast.parse/ast.unparse, the tracer algebra in vlib/exprgen.py (derived '
                   'truthiness is a salted hash bit of the term, so `in`/`not` results are compared through that bit over '
-                  'all environments). Inside the listed known shapes only failing cases are classified; evidence states '
-                  'known_shape_cases vs checked_cases.',
-    'rule': 'case = (query form, expression source); exhaustive part: every operator tree with <= N nodes over '
-            '{and, or, not, ==, <, if-else, +, .attr, call} (quick N=7 for the three basic forms, N=6 for the other '
-            'forms, N=5 over an extended operator set incl. is None / in / chains / subscripts / keyword calls), leaves '
-            'named a,b,c,d left to right; random part: expressions of 6-30 nodes over the full grammar. Distinct = '
-            'distinct (form, source); non-trivial = expression has >= 2 nodes.',
+                  'all environments; cases whose source raises in every environment are counted separately). Known '
+                  'findings are shape predicates on the SOURCE: inside a listed shape a failing case is attributed to the '
+                  'shape (reduced power there); evidence states known_shape_cases vs checked_cases.',
+    'rule': 'case = (scope, query text). Exhaustive part: every operator tree with <= N nodes over '
+            '{and, or, not, ==, <, if-else, +, .attr, call} with leaves named a,b,c,d left to right, in the three basic '
+            'forms lambda / (e for a in T) / (a for a in T if e) (quick N=7, thorough N=8), in 14 further forms (closure '
+            'scope, element+condition, two conditions, two for-clauses, nested generators, tuple target; quick N=5, '
+            'thorough N=6) and over an extended operator set (is None, in, unary -, subscript, chained comparison, keyword '
+            'call, tuple; quick N=4, thorough N=5). Random part: expressions of 6-34 nodes over the full grammar in all '
+            'forms; fixed corpus of 94 hand-written realistic queries x 2 scopes. Distinct = distinct (scope, query text); '
+            'non-trivial = the query has at least 4 (lambda) / 6 (generator) nodes.',
     'assumptions': ['CPython 3.12 bytecode (the interpreter under /venv); other versions compile differently and are not covered',
                     'decompile() is deterministic for a given code object',
                     'ast.unparse renders a well-formed tree faithfully'],
@@ -699,7 +703,7 @@ lambda p: (p, b, c, (p for z in T if c))
 
 def plan(tier):
     if tier == 'quick':
-        return dict(basic_n=7, other_n=5, ext_n=4, random=6000, rmin=6, rmax=26)
+        return dict(basic_n=7, other_n=5, ext_n=4, random=5000, rmin=6, rmax=26)
     return dict(basic_n=8, other_n=6, ext_n=5, random=140000, rmin=6, rmax=34)
 
 
